@@ -220,3 +220,61 @@ func usedAtInitTime(r *vf.Run) {
 		}
 	}
 }
+
+// callVolume: more than 2^31 (and in all more than 2^32) calls in one process, most of them ending in
+// "unmapped", spread over the eight functions: whatever a process-wide counter, ring or statistic may
+// do at the limits of its integer type, the answers stay the same. check judges sampled addresses
+// before, in between and after.
+func callVolume(r *vf.Run, check func(m *mapper, a uint32)) {
+	if os.Getenv("VERIF_CHILD") != "" && runtime.GOARCH != "386" {
+		return // (the main process and its 32-bit child do it; the other children skip it)
+	}
+	if !r.Phase("call-volume") {
+		return
+	}
+	const perRound = 1 << 28 // calls per round per direction, over all workers
+	workers := runtime.NumCPU()
+	var total int64
+	sample := func(tag string) {
+		for mi := range mappers {
+			for bank := uint32(0); bank < 256; bank += 3 {
+				for _, off := range []uint32{0x0000, 0x2000, 0x5FFF, 0x6000, 0x7FFF, 0x8000, 0xFFFF} {
+					a := bank<<16 | off
+					if pan := vf.Try(func() { check(&mappers[mi], a) }); pan != nil {
+						r.Fail(mappers[mi].name+"-fails-after-many-calls", fmt.Sprintf("%s: a call with $%06x failed (%s, %d million calls into this process): %v", mappers[mi].name, a, tag, total>>20, pan), nil)
+						return
+					}
+				}
+			}
+		}
+		r.Cell("call-volume:" + tag)
+	}
+	sample("before")
+	for round := 0; round < 10 && r.Violations() == 0; round++ { // 10 x 2 x 2^28 = 5.4e9 calls
+		m := &mappers[round%len(mappers)]
+		r.Parallel(workers, workers, func(w, wi int) {
+			per := perRound / workers
+			pan := vf.Try(func() {
+				// bus side: register area and expansion holes (unmapped in every mapper); pak side: the
+				// unassigned window $F0-$F4
+				a, p := uint32(0x002100+wi), uint32(0xF00000+wi)
+				for i := 0; i < per; i++ {
+					_, _ = m.b2p(a)
+					_, _ = m.p2b(p)
+					a = a&0x3F0000 | 0x2100 | (a+0x10001)&0x3F0FFF
+					p = 0xF00000 | (p+0x1001)&0x4FFFF
+				}
+			})
+			if pan != nil {
+				r.Fail(m.name+"-fails-after-many-calls", fmt.Sprintf("%s: after some %d million calls in this process a call failed: %v", m.name, (total+int64(wi))>>20, pan), nil)
+			}
+		})
+		total += 2 * perRound
+		if round == 4 || round == 8 {
+			sample(fmt.Sprintf("after-%d-million-calls", total>>20))
+		}
+	}
+	sample("after")
+	r.Eval(total)
+	r.SetExtra("call_volume", total)
+}
